@@ -987,6 +987,10 @@ func lemmaLastEncodePrefix(opts []Option, o Option, i int) {
 //@ func gtree.newNodeGenerator
 //@   ensures fresh: fresh(result) && result.parser != nil && md.parserOK(result.parser) && !result.parser.isSharpRoot && result.parser.spaces == 0 && result.parser.sep == ""
 
+// a format error names the offending row
+//@ func gtree.inputFormatError.Error
+//@   requires nn: ie != nil
+//@   ensures text [C02]: result == "incorrect input format: " ++ ie.row
 //@ func gtree.nodeGenerator.handleErr
 //@   ensures empty [C02]: err == md.ErrEmptyText ==> result == errEmptyText
 //@   ensures format [C02]: err == md.ErrIncorrectFormat ==> result != nil && isType(result, inputFormatError) && as(result, inputFormatError).row == row
